@@ -219,7 +219,9 @@ func urls() []*url.URL {
 	}
 	// label / issuer-parameter relations and parameter forms
 	for _, ty := range []string{"totp", "hotp", "TOTP", "xotp", ""} {
-		for _, label := range []string{"", "x", "x:", ":y", "x:y", "x:y:z", "x%3Ay", "Acme", "Acme:", "%41cme", "a%2Fb:c", "%zz"} {
+		for _, label := range []string{"", "x", "x:", ":y", "x:y", "x:y:z", "x%3Ay", "Acme", "Acme:", "%41cme", "a%2Fb:c", "%zz",
+			// labels whose issuer or account part is empty after trimming, or nothing but blanks / controls
+			"x:%20", "x:%20%20%20", "%20:y", "%20", "%20:%20", "%20%20:%20%20", "x:%09", "x:%0A", "x:+", "x:%00", "x:%20y%20", "%3A", "x%3A%20", "x:%E2%80%83", "x:%C2%A0", ":%20", "%20:", "x:%20:%20"} {
 			for _, iss := range []string{"\x00absent", "", "x", "y", "Acme", "Acme:", "x:y", "Acm", "Acmee"} {
 				for _, rest := range []string{"secret=A", "", "secret=A&digits=8&period=60&algorithm=SHA256", "digits=&period=&algorithm=", "secret=%zz"} {
 					q := rest
